@@ -1,10 +1,10 @@
 package rules
 
 import (
-	"os"
 	"fmt"
 	"go/token"
 	"go/types"
+	"os"
 	"strings"
 
 	"golang.org/x/tools/go/ssa"
@@ -35,6 +35,7 @@ func runC01(c *engine.Ctx) {
 	checkWrapperCloseFns(c, "R11") // shared with C10.R12: closing the limiter wrapper must close the tunnel stream
 	checkDeadlineDisarm(c, "R12")
 	checkHandOverFlags(c, "R13")
+	checkFreshLookup(c, "R14") // shared with C06.R13: a connection is bridged to the listener the registry names now
 }
 
 // ---- R2 ----
@@ -379,7 +380,10 @@ func checkSniffReplay(c *engine.Ctx, rule string) {
 					}
 					if f == c.P.Fn("pkg/util/tcpmux.HTTPConnectTCPMuxer.getHostFromHTTPConnect") {
 						// non-passthrough CONNECT: the request is answered by the muxer, its bytes are not replayed
-						if v, k := st.Truth(func(x ssa.Value) bool { f, _ := engine.LoadedField(x); return f != nil && f == c.P.Field("pkg/util/tcpmux", "HTTPConnectTCPMuxer", "passthrough") }); k && !v {
+						if v, k := st.Truth(func(x ssa.Value) bool {
+							f, _ := engine.LoadedField(x)
+							return f != nil && f == c.P.Field("pkg/util/tcpmux", "HTTPConnectTCPMuxer", "passthrough")
+						}); k && !v {
 							continue
 						}
 					}
